@@ -13,6 +13,7 @@ TARGETS = [
     ("stepdrv", ["stepdrv.cpp"], {"sessions": 16}),
     ("stepdrv2", ["stepdrv2.cpp"], {"sessions": 16}),
     ("stepdrv3", ["stepdrv3.cpp"], {"sessions": 16}),
+    ("stepdrv4", ["stepdrv4.cpp"], {"sessions": 16}),
     ("orddrv", ["orddrv.cpp"], {"sessions": 16}),
     ("mapdrv", ["mapdrv.cpp"], {"sessions": 16, "epoch_time": 5}),
 ]
